@@ -69,7 +69,9 @@ def render_main(case: dict, pkg: str) -> str:
             lines += _doc_stmt(k["doc"], ind + "    ")
             lines.append(ind + "    " + ("self.q = 1" if k["inst"] else "pass"))
         elif t == "class":
-            base = "" if k["base"] == "-" else f"({k['base']})"
+            chain = k.get("chain", "-")
+            expr = k["base"] if chain == "-" else chain.replace("pkg.", pkg + ".", 1) if chain.startswith("pkg.") else chain
+            base = "" if k["base"] == "-" else f"({expr})"
             lines.append(f"{ind}class {k['n']}{base}:")
             depth += 1
             lines += _doc_stmt(k["doc"], "    " * depth)
